@@ -39,6 +39,27 @@ def writable_symbols(libdir):
     return out
 
 
+PROCESS_STATE_IMPORTS = {'malloc', 'calloc', 'realloc', 'free', 'aligned_alloc', 'posix_memalign', 'memalign', 'valloc', 'strdup', 'strndup',
+                         '__errno_location', 'rand', 'srand', 'random', 'srandom', 'strtok', 'localtime', 'gmtime', 'asctime', 'ctime', 'setlocale',
+                         'strerror', 'getenv', 'setenv', 'putenv', 'tmpnam', 'signal', 'sigaction', 'atexit'}
+
+
+def process_state_imports(libdir):
+    """undefined dynamic symbols of the shipped libraries that reach process-wide state (allocator, errno, non-reentrant libc
+    functions): the pinned libraries import memcpy/memset only"""
+    out = []
+    for lib in ('libopen1722.so', 'libopen1722custom.so'):
+        rc, so, se = vlib.run(['objdump', '-T', os.path.join(libdir, lib)])
+        if rc != 0:
+            raise vlib.HarnessError('objdump -T failed on ' + lib)
+        for line in so.splitlines():
+            if '*UND*' in line:
+                name = line.split()[-1]
+                if name in PROCESS_STATE_IMPORTS:
+                    out.append((lib, name))
+    return out
+
+
 def c16(tier, seed):
     t0 = time.time()
     work = vlib.Work('C16')
@@ -104,6 +125,9 @@ def c16(tier, seed):
                     continue
                 obs.add_viol('writable-global:%s:%s:%s%s' % (lib, sec, name, label), dict(size=size, note='object in a writable section of the shipped library'))
         syms = syms + [('Debug:' + a, b, c2, d) for a, b, c2, d in syms_dbg]
+        imports = sorted(set(process_state_imports(libdir) + process_state_imports(libdir_dbg)))
+        for lib, name in imports:
+            obs.add_viol('process-state-import:%s:%s' % (lib, name), dict(note='the shipped library calls a function that reads or writes process-wide state (allocator, errno, non-reentrant libc state) - an object that was not passed to it'))
         obs.stat('evals', len(syms) + 1)
         cov = dict(distinct_nontrivial=int(obs.stats.get('thr.distinct_interleavings', 0)),
                    episodes=int(obs.stats.get('thr.episodes', 0)), shared_read_events=int(obs.stats.get('thr.shared_reads', 0)),
@@ -115,7 +139,7 @@ def c16(tier, seed):
                         'getters/decoders on a pool of 64 shared PDUs), scheduling noise (sched_yield / nanosleep) between calls; each '
                         'thread transcript must equal the same script run alone.  Real libopen1722.so/libopen1722custom.so (CMake, as '
                         'shipped): writable PT_LOAD segments minus RELRO hashed before the first library call and after the single- and '
-                        'multi-threaded workloads; objects in .data/.bss other than C-runtime bookkeeping are listed (RelWithDebInfo and Debug builds).  distinct_nontrivial '
+                        'multi-threaded workloads; objects in .data/.bss/.tdata/.tbss other than C-runtime bookkeeping are listed, and so are imports of functions that reach process-wide state (allocator, errno, non-reentrant libc functions) (RelWithDebInfo and Debug builds); every library call of the stress run must leave errno as it found it.  distinct_nontrivial '
                         '= distinct interleavings observed (hash of the thread-id sequence in ticket order).' % (ntsan, E))
         return vlib.finish('C16', 'exploration', tier, seed, obs, cov, [
             'ThreadSanitizer observes only the interleavings that executed; the structural part of the claim rests on the writable-image observation',
